@@ -100,7 +100,7 @@ func VerifConstructors() {
 			res = p.newMapLiteralEnd(res, 2)
 		}
 	case 11:
-		res = p.newForStmt(slot(), slot(), slot(), &ast.BlockStmt{})
+		res = p.newForStmt(slot(), slot(), slot(), &ast.BlockStmt{}, tk(FOR, 0))
 	case 12:
 		e := p.newIfElem(tk(IF, 0), slot(), &ast.BlockStmt{})
 		if e != nil {
